@@ -7,8 +7,9 @@ Model of the lexer generator:
   internal/lexer/items/itemlist.go   AddNoDuplicate, Closure (ContainShift on the *original* list)
   internal/lexer/items/itemset.go    ItemsSet0, getSymbolClasses, Next, NextDot, dependentsClosure, Action
   internal/lexer/items/itemsets.go   GetItemSets / Closure / Add / Contain
-  internal/util/rune.go              RuneToString (only because dependentsClosure compares the
-                                     *rendered* expected symbol with a production id)
+  internal/util/rune.go              RuneToString (before fix D13 dependentsClosure compared the *rendered*
+                                     expected symbol with a production id; now only regular-definition
+                                     references are compared; `termString` is kept for diagnostics)
 An item is identified, exactly as by the Go `hashKey`, by its production index and the list of
 positions on its stack (bottom first); the nodes on the stack are determined by those positions.
 Item lists are kept in the order the Go code produces them only where it is cheap; every
@@ -226,11 +227,11 @@ def depLoop (C : LexCtx) (prev : List LItem) : Nat → Nat → List LItem → Li
       let id := C.idOf it
       let items' := prev.foldl (fun acc th =>
         match C.expected th with
-        | some e =>
-          if termString e == id then
+        | some (.ref r) =>
+          if r == id then
             if C.isReduce it then addAll acc (moveRef C th id) else addL acc th
           else acc
-        | none => acc) items
+        | _ => acc) items
       depLoop C prev fuel (k + 1) items'
 
 def depClosure (C : LexCtx) (prev items : List LItem) : List LItem :=
